@@ -657,7 +657,9 @@ func oracleC12(f *sessionFam, w *World, res *Result) []Violation {
 		}
 		// a batch handed to the transport before the close is this poll's answer: it was not pending any more
 		handedOver := false
-		for _, fe := range w.evs(a, "srv-flush") {
+		// (the session-level 'flush' event comes first: a listener of it that closes the session does so in the
+		// middle of this very hand-over)
+		for _, fe := range w.evs(a, "srv-flush", "flush") {
 			if fe.Seq > start && fe.Seq < ce.Seq && transportOf(fe.St) == "polling" {
 				handedOver = true
 			}
